@@ -3,12 +3,22 @@ import PdbVerif.Driver.Json
 import PdbVerif.Driver.GCommon
 import PdbVerif.Model.Fnat
 import PdbVerif.Model.SuperposeDb
+import PdbVerif.Gen.Rmsd
 
 namespace Driver.ModelG
 open Lean Driver Driver.GCommon
 
 def op (name : String) (j : Json) : Except String (Option Json) := do
   match name with
+  | "gen_fnat_fast" =>
+    -- the GENERATED fast route (Gen/Rmsd.lean, translated from StructureSimilarity.compute_fnat_fast on every run); the parser and
+    -- the residue contact routine are its parameters: the parser's model and the contact model with the arguments of the call
+    let refL ← jLines j "ref_lines"; let decL ← jLines j "dec_lines"
+    let isDefault := (jStr j "cutoff") matches .ok "default"
+    let cf ← if isDefault then pure Gen.fnat_fast_cutoff_default else jRat j "cutoff"
+    let v := GenR.compute_fnat_fast (fun _ => .ok decL) (fun _ => Model.Fnat.tableOfLines refL)
+      (fun t c c1 c2 => Model.contactResiduePairs t (Model.Fnat.pairArgs c c1 c2)) [] [] cf
+    pure (some (exceptJ ratJ v))
   | "fnat" =>
     let refL ← jLines j "ref_lines"; let decL ← jLines j "dec_lines"
     -- "default": the call passes no cutoff and the routines use their own default arguments
